@@ -40,7 +40,7 @@ func (cx *Ctx) xsBoolHelpers() map[*ssa.Function]bool {
 			continue
 		}
 		// optional strings.TrimSpace on the parameter is accepted (xs:boolean collapses white space)
-		arg := fn.Name() + "/" + fn.Params[0].Name()
+		arg := cx.Fx.fnTok(fn) + "/" + fn.Params[0].Name()
 		isArg := func(p string) bool {
 			return p == arg || strings.HasPrefix(p, "call@") && strings.HasSuffix(p, "strings.TrimSpace")
 		}
@@ -149,6 +149,8 @@ func (cx *Ctx) checkXSBool(r *Report, rule string, only map[string]bool) {
 
 func checkC05(cx *Ctx, r *Report) {
 	w, fx := cx.W, cx.Fx
+	// request data must not be shared between requests through recycled buffers (R-POOL, see C15)
+	cx.checkPoolEscape(r)
 	r.Clauses = []string{
 		"position: the certificate and both signature-verification steps (each with its '...Necessary' predicate as condition) precede the single persist step; no callback or earlier step persists or redirects to login (with C08)",
 		"required => verified: on every path on which a '...VerificationNecessary' predicate returns false, either the binding differs or SP metadata present, AuthnRequestsSigned not true, IdP metadata present, WantAuthnRequestsSigned not true and no signature provided were all established",
@@ -165,6 +167,7 @@ func checkC05(cx *Ctx, r *Report) {
 	if k == nil {
 		return
 	}
+	cx.checkNoPassWithoutProvider(r, k.ch, "sso")
 	// --- position ------------------------------------------------------------
 	type sc struct {
 		name, condFactory string
@@ -202,7 +205,7 @@ func checkC05(cx *Ctx, r *Report) {
 			r.checkSources("R-VFG", "sso:WantAuthnRequestsSigned", w.InstrPos(sites[0]), ls, []string{"param:*.WantAuthRequestsSigned"}, []string{"param:*.WantAuthRequestsSigned"}, true)
 		}
 	}
-	r.Min("R-XSBOOL", 4)
+	r.Min("R-XSBOOL", 2)
 	helpers := cx.xsBoolHelpers()
 	for _, pd := range []struct {
 		st            *Step
@@ -379,7 +382,7 @@ func checkC05(cx *Ctx, r *Report) {
 		}
 	}
 	cx.checkVerifierArguments(r)
-	r.Min("R-VERIFIER", 7)
+	r.Min("R-VERIFIER", 4)
 	// ValidatePost validates the element it was given (the document root), not an element found by searching for a signature
 	if vp := w.Func("signature.ValidatePost"); vp != nil {
 		pvf := cx.newVFlow("ValidatePost", vp)
